@@ -140,3 +140,22 @@ package lq
 //@   modifies mapof(dbHandedOut), sqlLastExec, sqlExecs
 //@   ensures [sql] sql.nExecs() == old(sql.nExecs()) + 1 && sql.lastExec() == "UPDATE urls SET status = 'FRESH', timestamp = strftime('%s', 'now') WHERE status = 'CLAIMED'" // proved: the function issues exactly this one statement
 //@   ensures result == nil ==> forall(k, string, !sqlc_model.handedOut(k)) // assumed: what that statement means
+
+// ---------------------------------------------------------------------------------------
+// C04 / C15: consumerSender hands every URL taken from the queue to the reactor; only a URL
+// whose own text cannot be parsed is sent to the finisher channel instead (which deletes its row).
+//@ func consumerSender
+//@   property C04
+//@   requires globalLQ != nil
+//@   local parseFailed int = 0
+//@   local nRecv int = 0
+//@   local nOut int = 0
+//@   attr hooked urlBuffer,finishCh,ReceiveInsert,Parse
+//@   attr assume-pre ReceiveInsert
+//@   after selrecv(urlBuffer)#1: nRecv = nRecv + 1; parseFailed = 0
+//@   after Parse(parsedURL)#1: parseFailed = ite(opResult != nil, 1, 0)
+//@   assert send(finishCh)#1: [unparseable-only] @C04 parseFailed == 1 // C04: no URL is reported finished unless it was captured (a URL taken from the queue goes to the finisher channel, and so out of the queue, without a fetch only when its own text does not parse)
+//@   after send(finishCh)#1: nOut = nOut + 1
+//@   assert ReceiveInsert(newItem)#1: [parsed] @C04 parseFailed == 0
+//@   after ReceiveInsert(newItem)#1: nOut = nOut + 1
+//@   loop for invariant [one-way-out] @C04 nRecv == nOut // C04: every URL that was in the queue ... is crawled again (each URL taken from the queue is handed to the reactor or, unparseable, to the finisher: none is dropped in between)
